@@ -10,6 +10,9 @@
 
 #include "writer.h"
 
+// Maximal size of on-stack buffer for compressed data
+static constexpr std::size_t MAX_BUFF_SIZE = 65536;
+
 void CDNS::GzipCborOutputWriter::write(const char* p, std::size_t size)
 {
     m_gzip.next_in = reinterpret_cast<const unsigned char*>(p);
@@ -48,7 +51,11 @@ void CDNS::GzipCborOutputWriter::close()
 
 int CDNS::GzipCborOutputWriter::write_gzip(std::size_t in_size, int action)
 {
+    // Output buffer lives on the stack, keep its size bounded. Callers loop until
+    // all input is consumed, so bigger data are just processed in more steps.
     std::size_t size = in_size + in_size / 3 + 128;
+    if (size > MAX_BUFF_SIZE)
+        size = MAX_BUFF_SIZE;
     uint8_t buff[size];
 
     // Set output buffer
@@ -101,7 +108,11 @@ void CDNS::XzCborOutputWriter::close()
 
 lzma_ret CDNS::XzCborOutputWriter::write_lzma(std::size_t in_size, lzma_action action)
 {
+    // Output buffer lives on the stack, keep its size bounded. Callers loop until
+    // all input is consumed, so bigger data are just processed in more steps.
     std::size_t size = in_size + in_size / 3 + 128;
+    if (size > MAX_BUFF_SIZE)
+        size = MAX_BUFF_SIZE;
     uint8_t buff[size];
 
     // Set output buffer
